@@ -247,7 +247,8 @@ def intUn (bits : Nat) (sfx : String) (a : Nat) : Option V :=
 
 def V.payload : V → Nat
   | .i32 n => n | .i64 n => n | .f32 n => n | .f64 n => n | .v128 n => n
-  | .fref none => 0 | .fref (some f) => f + 1 | .xref none => 0 | .xref (some x) => x + 1
+  -- a function reference is opaque: null or not; which function it is must never turn into a number
+  | .fref none => 0 | .fref (some _) => 1 | .xref none => 0 | .xref (some x) => x + 1
 
 def strHash (s : String) : Nat := s.toList.foldl (fun h c => (h * 131 + c.toNat) % p64) 7
 
